@@ -52,7 +52,10 @@ func calls() []call {
 	return []call{
 		// ---- read ----------------------------------------------------------------------------------
 		{"Open", "read", true, func(ctx context.Context, v filesystem.FS) error { f, err := v.Open(viewFile); return closeIf(f, err) }},
-		{"GenericOpen", "read", true, func(ctx context.Context, v filesystem.FS) error { f, err := v.GenericOpen(viewFile); return closeIf(f, err) }},
+		{"GenericOpen", "read", true, func(ctx context.Context, v filesystem.FS) error {
+			f, err := v.GenericOpen(viewFile)
+			return closeIf(f, err)
+		}},
 		{"OpenFile(read-only)", "read", true, func(ctx context.Context, v filesystem.FS) error {
 			f, err := v.OpenFile(viewFile, os.O_RDONLY, 0o644)
 			return closeIf(f, err)
@@ -90,7 +93,9 @@ func calls() []call {
 			return v.WalkWithContextAndExclusionPatterns(ctx, viewDir, walkFn, "nothing-matches")
 		}},
 		{"Ls", "read", true, func(ctx context.Context, v filesystem.FS) error { return e(v.Ls(viewDir)) }},
-		{"LsWithExclusionPatterns", "read", true, func(ctx context.Context, v filesystem.FS) error { return e(v.LsWithExclusionPatterns(viewDir, "nothing-matches")) }},
+		{"LsWithExclusionPatterns", "read", true, func(ctx context.Context, v filesystem.FS) error {
+			return e(v.LsWithExclusionPatterns(viewDir, "nothing-matches"))
+		}},
 		{"LsRecursive", "read", false, func(ctx context.Context, v filesystem.FS) error { return e(v.LsRecursive(ctx, viewDir, true)) }},
 		{"LsRecursiveWithExclusionPatterns", "read", false, func(ctx context.Context, v filesystem.FS) error {
 			return e(v.LsRecursiveWithExclusionPatterns(ctx, viewDir, true, "nothing-matches"))
@@ -101,7 +106,9 @@ func calls() []call {
 		{"Lls", "read", true, func(ctx context.Context, v filesystem.FS) error { return e(v.Lls(viewDir)) }},
 		{"ReadFile", "read", true, func(ctx context.Context, v filesystem.FS) error { return e(v.ReadFile(viewFile)) }},
 		{"ReadFileWithContext", "read", true, func(ctx context.Context, v filesystem.FS) error { return e(v.ReadFileWithContext(ctx, viewFile)) }},
-		{"ReadFileWithLimits", "read", true, func(ctx context.Context, v filesystem.FS) error { return e(v.ReadFileWithLimits(viewFile, filesystem.NoLimits())) }},
+		{"ReadFileWithLimits", "read", true, func(ctx context.Context, v filesystem.FS) error {
+			return e(v.ReadFileWithLimits(viewFile, filesystem.NoLimits()))
+		}},
 		{"ReadFileWithContextAndLimits", "read", true, func(ctx context.Context, v filesystem.FS) error {
 			return e(v.ReadFileWithContextAndLimits(ctx, viewFile, filesystem.NoLimits()))
 		}},
@@ -121,10 +128,14 @@ func calls() []call {
 			return v.ListDirTreeWithContextAndExclusionPatterns(ctx, viewDir, &l, "nothing-matches")
 		}},
 		{"FileHash", "read", false, func(ctx context.Context, v filesystem.FS) error { return e(v.FileHash("SHA256", viewFile)) }},
-		{"FileHashWithContext", "read", false, func(ctx context.Context, v filesystem.FS) error { return e(v.FileHashWithContext(ctx, "SHA256", viewFile)) }},
-		{"FetchOwners", "read", true, func(ctx context.Context, v filesystem.FS) error { _, _, err := v.FetchOwners(viewFile); return err }},
+		{"FileHashWithContext", "read", false, func(ctx context.Context, v filesystem.FS) error {
+			return e(v.FileHashWithContext(ctx, "SHA256", viewFile))
+		}},
 		// ---- mutate --------------------------------------------------------------------------------
-		{"CreateFile", "mutate", true, func(ctx context.Context, v filesystem.FS) error { f, err := v.CreateFile(viewNew); return closeIf(f, err) }},
+		{"CreateFile", "mutate", true, func(ctx context.Context, v filesystem.FS) error {
+			f, err := v.CreateFile(viewNew)
+			return closeIf(f, err)
+		}},
 		{"OpenFile(create)", "mutate", true, func(ctx context.Context, v filesystem.FS) error {
 			f, err := v.OpenFile(viewNew, os.O_WRONLY|os.O_CREATE|os.O_TRUNC, 0o644)
 			return closeIf(f, err)
@@ -151,9 +162,13 @@ func calls() []call {
 		{"MkDir", "mutate", true, func(ctx context.Context, v filesystem.FS) error { return v.MkDir(viewNew2) }},
 		{"MkDirAll", "mutate", true, func(ctx context.Context, v filesystem.FS) error { return v.MkDirAll(viewNew2, 0o755) }},
 		{"CopyToFile", "mutate", false, func(ctx context.Context, v filesystem.FS) error { return v.CopyToFile(viewFile, viewNew) }},
-		{"CopyToFileWithContext", "mutate", false, func(ctx context.Context, v filesystem.FS) error { return v.CopyToFileWithContext(ctx, viewFile, viewNew) }},
+		{"CopyToFileWithContext", "mutate", false, func(ctx context.Context, v filesystem.FS) error {
+			return v.CopyToFileWithContext(ctx, viewFile, viewNew)
+		}},
 		{"CopyToDirectory", "mutate", false, func(ctx context.Context, v filesystem.FS) error { return v.CopyToDirectory(viewFile, viewSub) }},
-		{"CopyToDirectoryWithContext", "mutate", false, func(ctx context.Context, v filesystem.FS) error { return v.CopyToDirectoryWithContext(ctx, viewFile, viewSub) }},
+		{"CopyToDirectoryWithContext", "mutate", false, func(ctx context.Context, v filesystem.FS) error {
+			return v.CopyToDirectoryWithContext(ctx, viewFile, viewSub)
+		}},
 		{"Copy", "mutate", false, func(ctx context.Context, v filesystem.FS) error { return v.Copy(viewFile, viewNew) }},
 		{"CopyWithContext", "mutate", false, func(ctx context.Context, v filesystem.FS) error { return v.CopyWithContext(ctx, viewDir, viewNew2) }},
 		{"CopyWithContextAndExclusionPatterns", "mutate", false, func(ctx context.Context, v filesystem.FS) error {
@@ -162,23 +177,32 @@ func calls() []call {
 		{"Move", "mutate", false, func(ctx context.Context, v filesystem.FS) error { return v.Move(viewFile, viewNew) }},
 		{"MoveWithContext", "mutate", false, func(ctx context.Context, v filesystem.FS) error { return v.MoveWithContext(ctx, viewDir, viewNew2) }},
 		{"TempDir", "mutate", true, func(ctx context.Context, v filesystem.FS) error { return e(v.TempDir(viewDir, "tmp")) }},
-		{"TempFile", "mutate", true, func(ctx context.Context, v filesystem.FS) error { f, err := v.TempFile(viewDir, "tmp*"); return closeIf(f, err) }},
+		{"TempFile", "mutate", true, func(ctx context.Context, v filesystem.FS) error {
+			f, err := v.TempFile(viewDir, "tmp*")
+			return closeIf(f, err)
+		}},
 		{"TouchTempFile", "mutate", false, func(ctx context.Context, v filesystem.FS) error { return e(v.TouchTempFile(viewDir, "tmp*")) }},
 		{"WriteFile", "mutate", true, func(ctx context.Context, v filesystem.FS) error { return v.WriteFile(viewNew, []byte("data"), 0o644) }},
-		{"WriteFile(existing)", "mutate", true, func(ctx context.Context, v filesystem.FS) error { return v.WriteFile(viewFile, []byte("other data"), 0o644) }},
-		{"WriteFileWithContext", "mutate", true, func(ctx context.Context, v filesystem.FS) error { return v.WriteFileWithContext(ctx, viewNew, []byte("data"), 0o644) }},
+		{"WriteFile(existing)", "mutate", true, func(ctx context.Context, v filesystem.FS) error {
+			return v.WriteFile(viewFile, []byte("other data"), 0o644)
+		}},
+		{"WriteFileWithContext", "mutate", true, func(ctx context.Context, v filesystem.FS) error {
+			return v.WriteFileWithContext(ctx, viewNew, []byte("data"), 0o644)
+		}},
 		{"WriteToFile", "mutate", true, func(ctx context.Context, v filesystem.FS) error {
 			return e(v.WriteToFile(ctx, viewNew, bytes.NewReader([]byte("data")), 0o644))
 		}},
-		{"GarbageCollect", "mutate", false, func(ctx context.Context, v filesystem.FS) error { return v.GarbageCollect(viewDir, time.Nanosecond) }},
-		{"GarbageCollectWithContext", "mutate", false, func(ctx context.Context, v filesystem.FS) error {
+		{"GarbageCollect", "read", false, func(ctx context.Context, v filesystem.FS) error { return v.GarbageCollect(viewDir, time.Nanosecond) }},
+		{"GarbageCollectWithContext", "read", false, func(ctx context.Context, v filesystem.FS) error {
 			return v.GarbageCollectWithContext(ctx, viewDir, time.Nanosecond)
 		}},
 		{"Chmod", "mutate", true, func(ctx context.Context, v filesystem.FS) error { return v.Chmod(viewFile, 0o600) }},
 		{"ChmodRecursively", "mutate", false, func(ctx context.Context, v filesystem.FS) error { return v.ChmodRecursively(ctx, viewDir, 0o700) }},
 		{"Chtimes", "mutate", true, func(ctx context.Context, v filesystem.FS) error { return v.Chtimes(viewFile, now, now) }},
 		{"Chown", "mutate", true, func(ctx context.Context, v filesystem.FS) error { return v.Chown(viewFile, os.Getuid(), os.Getgid()) }},
-		{"ChownRecursively", "mutate", false, func(ctx context.Context, v filesystem.FS) error { return v.ChownRecursively(ctx, viewDir, os.Getuid(), os.Getgid()) }},
+		{"ChownRecursively", "mutate", false, func(ctx context.Context, v filesystem.FS) error {
+			return v.ChownRecursively(ctx, viewDir, os.Getuid(), os.Getgid())
+		}},
 		{"Link", "mutate", true, func(ctx context.Context, v filesystem.FS) error { return v.Link(viewFile, viewNew) }},
 		{"Symlink", "mutate", true, func(ctx context.Context, v filesystem.FS) error { return v.Symlink(viewFile, viewNew) }},
 		{"Touch(new)", "mutate", true, func(ctx context.Context, v filesystem.FS) error { return v.Touch(viewNew) }},
@@ -192,7 +216,9 @@ func calls() []call {
 			return v.ZipWithContextAndLimitsAndExclusionPatterns(ctx, viewDir, "/out.zip", filesystem.NoLimits(), "nothing-matches")
 		}},
 		{"Unzip", "mutate", false, func(ctx context.Context, v filesystem.FS) error { return e(v.Unzip("/inner.zip", viewNew2)) }},
-		{"UnzipWithContext", "mutate", false, func(ctx context.Context, v filesystem.FS) error { return e(v.UnzipWithContext(ctx, "/inner.zip", viewNew2)) }},
+		{"UnzipWithContext", "mutate", false, func(ctx context.Context, v filesystem.FS) error {
+			return e(v.UnzipWithContext(ctx, "/inner.zip", viewNew2))
+		}},
 		{"UnzipWithContextAndLimits", "mutate", false, func(ctx context.Context, v filesystem.FS) error {
 			return e(v.UnzipWithContextAndLimits(ctx, "/inner.zip", viewNew2, filesystem.NoLimits()))
 		}},
